@@ -84,3 +84,74 @@ package integrate
 //@   ensures [one] len(r0) == 1
 //@   ensures [ancestor] idx(val(fld(extendedSpatialIds[0], 1)), val(fld(extendedSpatialIds[0], 0))) && idx(val(fld(extendedSpatialIds[0], 2)), val(fld(extendedSpatialIds[0], 0))) && vidx(val(fld(extendedSpatialIds[0], 4)), val(fld(extendedSpatialIds[0], 3))) ==> r0[0] == ext(hZoom, anc(val(fld(extendedSpatialIds[0], 1)), val(fld(extendedSpatialIds[0], 0)) - hZoom), anc(val(fld(extendedSpatialIds[0], 2)), val(fld(extendedSpatialIds[0], 0)) - hZoom), vZoom, anc(val(fld(extendedSpatialIds[0], 4)), val(fld(extendedSpatialIds[0], 3)) - vZoom))
 //@ end
+
+//@ define incross(e: str, h: strs, v: strs, na, nb) = exists a, b :: 0 <= a && a < na && 0 <= b && b < nb && e == join(h[a], v[b])
+//@ -- set level: every result is in the cross product of some input, and every cross-product element is a result
+//@ case ChangeExtendedSpatialIdsZoom members
+//@   tier thorough
+//@   local
+//@   requires 0 <= hZoom && hZoom <= 35 && 0 <= vZoom && vZoom <= 35
+//@   requires forall k :: 0 <= k && k < len(extendedSpatialIds) ==> isext(extendedSpatialIds[k]) && zoomsok(extendedSpatialIds[k])
+//@   ensures [sound] forall j :: 0 <= j && j < len(r0) ==> (exists k :: 0 <= k && k < len(extendedSpatialIds) && cross(r0[j], extendedSpatialIds[k], hZoom, vZoom))
+//@   ensures [complete] forall k, a, b :: 0 <= k && k < len(extendedSpatialIds) && 0 <= a && a < len(hzs(extendedSpatialIds[k], hZoom)) && 0 <= b && b < len(vzs(extendedSpatialIds[k], vZoom)) ==> in(join(hzs(extendedSpatialIds[k], hZoom)[a], vzs(extendedSpatialIds[k], vZoom)[b]), r0)
+//@   loop 0 invariant [sound] forall j :: 0 <= j && j < len(resultIDList) ==> (exists k :: 0 <= k && k < $i && cross(resultIDList[j], extendedSpatialIds[k], hZoom, vZoom))
+//@   loop 0 invariant [complete] forall k, a, b :: 0 <= k && k < $i && 0 <= a && a < len(hzs(extendedSpatialIds[k], hZoom)) && 0 <= b && b < len(vzs(extendedSpatialIds[k], vZoom)) ==> in(join(hzs(extendedSpatialIds[k], hZoom)[a], vzs(extendedSpatialIds[k], vZoom)[b]), resultIDList)
+//@   loop 1 invariant [ctx] hComponents == hzs(extendedSpatialIds[$i0], hZoom) && vComponents == vzs(extendedSpatialIds[$i0], vZoom)
+//@   loop 1 invariant [sound] forall j :: 0 <= j && j < len(resultIDList) ==> ((exists k :: 0 <= k && k < $i0 && cross(resultIDList[j], extendedSpatialIds[k], hZoom, vZoom)) || incross(resultIDList[j], hComponents, vComponents, $i, len(vComponents)))
+//@   loop 1 invariant [complete-old] forall k, a, b :: 0 <= k && k < $i0 && 0 <= a && a < len(hzs(extendedSpatialIds[k], hZoom)) && 0 <= b && b < len(vzs(extendedSpatialIds[k], vZoom)) ==> in(join(hzs(extendedSpatialIds[k], hZoom)[a], vzs(extendedSpatialIds[k], vZoom)[b]), resultIDList)
+//@   loop 1 invariant [complete-cur] forall a, b :: 0 <= a && a < $i && 0 <= b && b < len(vComponents) ==> in(join(hComponents[a], vComponents[b]), resultIDList)
+//@   loop 2 invariant [ctx] hComponents == hzs(extendedSpatialIds[$i0], hZoom) && vComponents == vzs(extendedSpatialIds[$i0], vZoom) && 0 <= $i1 && $i1 < len(hComponents)
+//@   loop 2 invariant [sound] forall j :: 0 <= j && j < len(resultIDList) ==> ((exists k :: 0 <= k && k < $i0 && cross(resultIDList[j], extendedSpatialIds[k], hZoom, vZoom)) || incross(resultIDList[j], hComponents, vComponents, $i1, len(vComponents)) || (exists b :: 0 <= b && b < $i && resultIDList[j] == join(hComponents[$i1], vComponents[b])))
+//@   loop 2 invariant [complete-old] forall k, a, b :: 0 <= k && k < $i0 && 0 <= a && a < len(hzs(extendedSpatialIds[k], hZoom)) && 0 <= b && b < len(vzs(extendedSpatialIds[k], vZoom)) ==> in(join(hzs(extendedSpatialIds[k], hZoom)[a], vzs(extendedSpatialIds[k], vZoom)[b]), resultIDList)
+//@   loop 2 invariant [complete-cur] forall a, b :: 0 <= a && a < $i1 && 0 <= b && b < len(vComponents) ==> in(join(hComponents[a], vComponents[b]), resultIDList)
+//@   loop 2 invariant [complete-row] forall b :: 0 <= b && b < $i ==> in(join(hComponents[$i1], vComponents[b]), resultIDList)
+//@ end
+
+//@ -- C09 (2): zooming in and back out is the identity, on each axis (lemmas over the kernel contracts)
+//@ lemma C09_horizontal_in_then_out_is_identity
+//@   props C09 C03
+//@   var a int
+//@   var b int
+//@   var x int
+//@   var y int
+//@   var c int
+//@   var d int
+//@   split a 0..35
+//@   split b 0..35
+//@   assume a <= b && idx(x, a) && idx(y, a)
+//@   call mnx, mny, mxx, mxy := HorizontalZoomMinMax(a, x, y, b)
+//@   assume mnx <= c && c <= mxx && mny <= d && d <= mxy
+//@   call bx, by, cx, cy := HorizontalZoomMinMax(b, c, d, a)
+//@   assert [descendant-range] idx(c, b) && idx(d, b) && mxx - mnx + 1 == pow2(b - a) && mxy - mny + 1 == pow2(b - a)
+//@   assert [back] bx == x && cx == x && by == y && cy == y
+//@ end
+
+//@ lemma C09_vertical_in_then_out_is_identity
+//@   props C09 C03
+//@   var a int
+//@   var b int
+//@   var f int
+//@   var k int
+//@   split a 0..35
+//@   split b 0..35
+//@   assume a <= b && vidx(f, a)
+//@   call fine := VerticalZoom(a, f, b)
+//@   assume 0 <= k && k < len(fine)
+//@   call back := VerticalZoom(b, val(fld(fine[k], 1)), a)
+//@   assert [descendants] len(fine) == pow2(b - a) && fine[k] == vid(b, f * pow2(b - a) + k) && vidx(val(fld(fine[k], 1)), b)
+//@   assert [back] len(back) == 1 && back[0] == vid(a, f)
+//@   assert [minus-one] f == 0 - 1 ==> (k == len(fine) - 1 ==> val(fld(fine[k], 1)) == 0 - 1)
+//@ end
+
+//@ -- partition: the descendants of different indices are disjoint (ancestor is a function) and cover the finer grid
+//@ lemma C03_descendants_partition
+//@   props C03 C09
+//@   var a int
+//@   var b int
+//@   var c int
+//@   split a 0..35
+//@   split b 0..35
+//@   assume a <= b && vidx(c, b)
+//@   assert [unique-ancestor] vidx(anc(c, b - a), a) && anc(c, b - a) * pow2(b - a) <= c && c <= (anc(c, b - a) + 1) * pow2(b - a) - 1
+//@   assert [floor-of-minus-one] c == 0 - 1 ==> anc(c, b - a) == 0 - 1
+//@ end
